@@ -548,7 +548,7 @@ func run(c *vf.Ctx) {
 		}
 	}
 	if want("ladders") {
-		merge(stage("ladders", vf.PoolSpec{Worker: "ladders", Shards: 64, StallSecs: 240}))
+		merge(stage("ladders", vf.PoolSpec{Worker: "ladders", Shards: 160}))
 	}
 	if want("funcs") {
 		merge(stage("funcs", vf.PoolSpec{Worker: "funcs", Shards: 128}))
@@ -564,7 +564,7 @@ func run(c *vf.Ctx) {
 	}
 	_ = t0
 
-	for _, name := range []string{"reader-outcomes", "func-outcomes", "dsl-outcomes", "ladder-outcomes", "bare-error-texts", "func-vacuous-check"} {
+	for _, name := range []string{"reader-outcomes", "func-outcomes", "dsl-outcomes", "ladder-outcomes", "ladder-reached", "bare-error-texts"} {
 		if m := sets[name]; m != nil {
 			var l []string
 			for s := range m {
